@@ -2,7 +2,7 @@
 From Coq Require Import String List NArith ZArith Bool.
 Require Import Lib.GoStr Ssz.Sha256 Ssz.Ssz Ssz.Rotation Ssz.RotationProofs Ssz.TasksProofs.
 Require Gen.Baked.
-Require Node.Types Node.Process Node.Export Node.ExportProofs.
+Require Node.Types Node.Process Node.Export Node.ExportProofs Node.Reconstructed Node.ExportNode.
 Import ListNotations.
 Local Open Scope Z_scope.
 
@@ -97,3 +97,20 @@ Example C03_export_example :
   Some [(1%N, {| Node.Export.ex_payload := 101%N; Node.Export.ex_sig := 55%N; Node.Export.ex_file := 1%N |});
         (2%N, {| Node.Export.ex_payload := 102%N; Node.Export.ex_sig := 66%N; Node.Export.ex_file := 2%N |})].
 Proof. exact (proj2 Node.ExportProofs.export_example). Qed.
+
+(* the step of the node's processMessage that records a batch proposal (Node/Process.v pm_prop, the
+   model of the `SigningProposalStart` branch of node_service.go processMessage): it files exactly
+   those stubs - id, file and payload of the expansion, the proposer's name, no signature - so with
+   distinct ids and a batch new to the round's store each of them is what the export shows *)
+Theorem C03_node_files_the_proposed_stubs_first :
+  forall put m h i op batch a b c src tasks h' o,
+  String.eqb (Node.Types.m_event m) Fsm.Actions.ev_sgn_start = true -> Node.Types.m_tasks m = Some tasks ->
+  NoDup (map Node.Types.mt_id tasks) ->
+  (forall t, In t tasks ->
+     Node.Export.first_entry (Node.Reconstructed.round_store (Node.Process.h_st h) (Node.Types.m_round m)) batch (Node.Types.mt_id t) = None) ->
+  Node.Process.pm_prop put m (Fsm.Types.RStart batch a b c src) h i op = Node.Process.ROk h' o ->
+  forall t, In t tasks ->
+    Node.Export.first_entry (Node.Reconstructed.round_store (Node.Process.h_st h') (Node.Types.m_round m)) batch (Node.Types.mt_id t)
+      = Some (Node.ExportNode.stub_of m batch t).
+Proof. exact Node.ExportNode.proposal_files_the_stubs_first. Qed.
+Print Assumptions C03_node_files_the_proposed_stubs_first.
